@@ -206,6 +206,54 @@ Example C04_tail_f_nonvacuous :
     /\ chain_out nat nat c [5; 6] = [5; 6].
 Proof. exact tail_f_nonvacuous. Qed.
 
+(* ======================= the writer's flush decision; at rest = no enabled step (coq/C04/Flush.v) ======================= *)
+(* The writer step of the tail -f model IS channelWriterHandleBatch's loop item by item with the code's rule "flush
+   after EVERY item, record or print/dump/comment text, when --fflush" (then stream.go's final Flush on end of stream) *)
+Theorem C04_writer_step_is_per_item_flush :
+  forall (item vst : Type) (fflush : bool) (s : fstate item vst) (b : batch item) (q : list (batch item)),
+    dwq item vst (fd item vst s) = b :: q -> (fflush = true -> buffered item vst s = []) ->
+    fwriter_succs item vst fflush s =
+      let r := write_items item fflush (flush_every_item item) (fst b) (flushed item vst s) (buffered item vst s) in
+      let d' := mkD item vst (rrem item vst (fd item vst s)) (dvs item vst (fd item vst s)) q (dwritten item vst (fd item vst s) ++ [b]) in
+      [if snd b then mkF item vst d' (fst r ++ snd r) [] else mkF item vst d' (fst r) (snd r)].
+Proof. exact fwriter_succs_per_item. Qed.
+Print Assumptions C04_writer_step_is_per_item_flush.
+
+(* a rule that flushes after records only leaves a text-only batch (put -q 'print ...', dump, passed comments) in the
+   buffer although --fflush is on, while the code's rule makes it visible *)
+Theorem C04_flush_after_records_only_refuted :
+  exists (after : nat + nat -> bool) (l : list (nat + nat)),
+    (forall r, after (inl r) = true) /\ l <> [] /\
+    write_items (nat + nat) true after l [] [] = ([], l) /\
+    write_items (nat + nat) true (flush_every_item (nat + nat)) l [] [] = (l, []).
+Proof. exact flush_after_records_only_refuted. Qed.
+Print Assumptions C04_flush_after_records_only_refuted.
+
+(* "at rest" is EXACTLY "no verb step and no writer step is enabled", while the batches handed over so far are non-end
+   batches (the pipe is open) and the verbs pass the end-of-stream bit through (true of every verb driven by
+   runSingleTransformerBatch) *)
+Theorem C04_at_rest_iff_no_enabled_step :
+  forall (item vst : Type) (fl : bool) (vs : list (dverb item vst * vst)) (delivered pending : list (batch item))
+         (s : fstate item vst),
+    all_pres item vst vs -> forallb (ne item) delivered = true ->
+    freach item vst fl (finit item vst vs (delivered ++ pending)) s -> rrem item vst (fd item vst s) = pending ->
+    (fquiet item vst s = true <-> nonreader_fsuccs item vst fl s = []).
+Proof. exact quiet_iff_no_step. Qed.
+Print Assumptions C04_at_rest_iff_no_enabled_step.
+
+(* the tail -f contract with the rest condition as enabledness: --fflush, one record per batch, fully streaming verbs,
+   the records [delivered] handed over and neither the chain nor the writer able to move: stdout shows the complete
+   output of the chain on those records and the buffer is empty *)
+Theorem C04_tail_f_streaming_chain_no_enabled_step :
+  forall (item st : Type) (c : list (sverb item st * st)) (delivered : list item) (pending : list (batch item))
+         (s : fstate item st),
+    all_streaming item st c ->
+    freach item st true (finit item st (dchain item st c) (singletons item delivered ++ pending)) s ->
+    rrem item st (fd item st s) = pending -> nonreader_fsuccs item st true s = [] ->
+    flushed item st s = chain_out item st c delivered /\ buffered item st s = [].
+Proof. exact streaming_tail_f_no_step. Qed.
+Print Assumptions C04_tail_f_streaming_chain_no_enabled_step.
+
 (* ======================= refinement: the data-carrying model with done flags projects onto the skeleton ======================= *)
 From Miller Require Import C04.DataFlags C04.Refine C04.EarlyExit C04.EarlyInst.
 
